@@ -8,9 +8,9 @@ typedef struct c17_ctx {
     const uint64_t *in; /* shared read-only input */
     size_t n;
     int arg;
-    uint8_t *enc;  /* private scratch, 16 KiB */
-    uint8_t *enc2; /* private scratch, 16 KiB */
-    uint64_t *dec; /* private scratch, 256 elements */
+    uint8_t *enc;  /* private scratch, 16 KiB (large operations: C17_LARGE_BYTES) */
+    uint8_t *enc2; /* private scratch, 16 KiB (large operations: C17_LARGE_BYTES) */
+    uint64_t *dec; /* private scratch, 256 elements (large operations: C17_LARGE_BYTES / 8) */
     uint8_t *obs;  /* private observation buffer, C17_OBS_MAX bytes */
     uint32_t obs_len;
 } c17_ctx;
@@ -23,8 +23,15 @@ typedef struct c17_op {
     int input; /* which shared input */
 } c17_op;
 
+/* C17_OPS[0 .. C17_NOPS) are the small operations (inputs 0-2, at most 130 values); C17_OPS[C17_NOPS .. C17_NALL) are
+ * the large ones (inputs 3-5, C17_LARGE_N values each: above the 4096 / 8192 / 10000 size thresholds of the library) */
 extern const c17_op C17_OPS[];
-extern const int C17_NOPS;
-extern const uint64_t C17_IN[3][160];
-extern const size_t C17_INN[3];
+extern const int C17_NOPS, C17_NALL;
+#define C17_NIN 6
+#define C17_LARGE_N 12000
+#define C17_LARGE_BYTES (256 * 1024)
+extern const uint64_t *C17_IN[C17_NIN];
+extern const size_t C17_INN[C17_NIN];
+extern const size_t C17_INBYTES[C17_NIN];
+void c17_init_inputs(void);
 #endif
